@@ -182,9 +182,9 @@ def run(res, tier, seed):
             "; ".join("%d%%N" % code(m)[1] for m in c["msgs"]), pl(filt), pl(upd), "; ".join("%d%%nat" % s for s in started), err,
             P.coq_mode_toks(P.mode_tokens(r["output"]))))
         c["_fev"] = fev
+    rows_def = "Definition rows : list rowT := [%s]."
     body = ["Definition dm := map sc_call BTGen.Lifecycle.disable_mouse_calls.",
             "Definition rowT := (N * opts * option policy * list (rmsg nat) * list N * (list (nat * N) * list (nat * N) * list nat * option exit_err * list tok))%type.",
-            "Definition rows : list rowT := [%s]." % ";\n ".join(rows),
             "Definition pair_eqb (a b : nat * N) := (fst a =? fst b)%nat && (snd a =? snd b)%N.",
             "Fixpoint leqb {A} (e : A -> A -> bool) (a b : list A) := match a, b with [], [] => true | x :: a', y :: b' => e x y && leqb e a' b' | _, _ => false end.",
             "Fixpoint prefixb {A} (e : A -> A -> bool) (a b : list A) := match a, b with [], _ => true | x :: a', y :: b' => e x y && prefixb e a' b' | _, _ => false end.",
@@ -198,15 +198,17 @@ def run(res, tier, seed):
             "ok && leqb pair_eqb (ob_filter ob) rf && leqb pair_eqb (ob_update ob) ru && same_multiset (ob_spawned ob) rs && "
             "exit_eqb (ob_exit ob) rex && prefixb tok_eqb (ob_modes ob) rmodes.",
             "Definition bad_model := map (fun x => fst (fst (fst (fst (fst x))))) (filter (fun x => negb (model_row x)) rows)."]
-    vals, _ = C.coq_eval("cases_C16", PRE, body, ["bad_model"], timeout=900)
-    bad_model = C.parse_nat_list(C.parse_coq_value(vals["bad_model"]).replace("%N", ""))
+    # (rows refers to rowT: keep the type definition ahead of the rows in every shard)
+    head = [b for b in body if b.startswith("Definition dm") or b.startswith("Definition rowT")]
+    rest = [b for b in body if b not in head]
+    bad_model, _ = C.coq_eval_sharded("cases_C16", PRE + "\n".join(head) + "\n", rows, rows_def, rest, "bad_model", shard=150)
     # the Spec, independent of the model, on the real callback log
     frows = ["(%d%%N, [%s], [%s])" % (i, "; ".join("%d%%N" % code(m)[1] for m in c["msgs"]), "; ".join(c["_fev"]))
              for i, c in enumerate(cases) if c["filter"] is not None]
-    body2 = ["Definition frows : list (N * list N * list fev) := [%s]." % ";\n ".join(frows),
-             "Definition bad_spec := map (fun x => fst (fst x)) (filter (fun x => negb (filter_log_ok (snd (fst x)) 0%nat (snd x))) frows)."]
-    vals2, _ = C.coq_eval("cases_C16_spec", PRE, body2, ["bad_spec"], timeout=900)
-    bad_spec = C.parse_nat_list(C.parse_coq_value(vals2["bad_spec"]).replace("%N", ""))
+    frows_def = "Definition frows : list (N * list N * list fev) := [%s]."
+    body2 = ["Definition bad_spec := map (fun x => fst (fst x)) (filter (fun x => negb (filter_log_ok (snd (fst x)) 0%nat (snd x))) frows)."]
+    bad_spec, _ = C.coq_eval_sharded("cases_C16_spec", PRE, frows, frows_def, body2, "bad_spec", shard=200)
+    fidx = [i for i, c in enumerate(cases) if c["filter"] is not None]
     for c in cases:
         c.pop("_fev", None)
     res.oblige("Spec on real logs (Coq: Spec.FilterSpec.filter_log_ok): consulted once per message, in order, with the current model; nil leaves no trace; a verdict is treated as if sent, %d filtered programs" % len(frows),
